@@ -54,7 +54,7 @@ inline void GraphDependency::declare_channel() noexcept {
 
 void GraphDependency::reset() noexcept {
   _waiting_num.store(0, ::std::memory_order_relaxed);
-  _established = false;
+  _established.store(false, ::std::memory_order_relaxed);
   _ready = false;
 }
 
@@ -63,7 +63,7 @@ bool GraphDependency::ready() const noexcept {
 }
 
 bool GraphDependency::established() const noexcept {
-  return _established;
+  return _established.load(::std::memory_order_relaxed);
 }
 
 bool GraphDependency::empty() const noexcept {
@@ -108,14 +108,14 @@ const GraphData* GraphDependency::inner_condition() const noexcept {
 
 bool GraphDependency::check_established() noexcept {
   if (_condition == nullptr) {
-    _established = true;
+    _established.store(true, ::std::memory_order_relaxed);
   } else {
     bool value = _condition->as<bool>();
     if (value == _establish_value) {
-      _established = true;
+      _established.store(true, ::std::memory_order_relaxed);
     }
   }
-  return _established;
+  return _established.load(::std::memory_order_relaxed);
 }
 
 template <typename T>
